@@ -3,6 +3,7 @@ from __future__ import annotations
 
 import json
 import random
+import re
 
 from .. import core, mm, mmgen2, sx
 
@@ -47,6 +48,14 @@ def flat_statements(st):
             yield s
 
 
+COMMENT = re.compile(r'\$\(((.|\n)(?<!\$\)))*\$\)')
+
+
+def lex(src):
+    """the lark lexer's job (outside the Lean model): drop `$( ... $)` comments, split at whitespace"""
+    return COMMENT.sub(' ', src).split()
+
+
 def mutate_tokens(rng, toks):
     toks = list(toks)
     for _ in range(rng.randint(1, 2)):
@@ -68,7 +77,7 @@ def run(rep):
     rng = random.Random(rep.seed * 1000003 + 17)
     ok, detail = core.proof_gate(rep, 'Pi2.Props.C17', THEOREMS)
     quick = rep.tier == 'quick'
-    N = 40 if quick else 600
+    N = 80 if quick else 800
     findings = []
     cases = []
     for _ in range(N):
@@ -81,13 +90,13 @@ def run(rep):
     sources = [src for _, _, src in cases]
     n_valid = len(sources)
     for _, _, src in cases[: (20 if quick else 300)]:
-        sources.append(' '.join(mutate_tokens(rng, src.split())))        # malformed / odd stream (comments kept as tokens on purpose)
+        sources.append(' '.join(mutate_tokens(rng, lex(src))))        # malformed / odd stream
     sources += ['', '$c a $.', 'l $a ( $.', 'l $a ( a ) $.', 'l $a ( a b ) $.', 'l $a ( ( a b ) c ) ) $.', '${ $}', '$v x $. l $f t x $. ${ $d x x $. $}',
                 'l $p a $= $.', 'l $p a $= ? $.', '$v x $. l $a |- ( x y x ) x $.', 'l $a |- y $. $v y $. l2 $a |- y $.']
     pa = core.py_h(['mmast ' + (s.encode().hex() or '-') for s in sources])
     ml = []
     for s in sources:
-        ml.append('mmparse ' + toks_sx(mm.tokenize(s) if '$(' in s and '$)' in s else s.split()))
+        ml.append('mmparse ' + toks_sx(lex(s)))
     ma = core.lean_drv(ml)
     to_print = []
     outcome = {'ok': 0, 'raise': 0}
@@ -113,7 +122,7 @@ def run(rep):
         if flag != 'true':
             findings.append({'key': 'roundtrip', 'flag': flag, 'source': s[-2000:], 'printed': printed[-2000:],
                              'what': f'printing a parsed database and parsing the text again does not give the same database ({flag})'})
-        src_toks = mm.tokenize(s) if '$(' in s and '$)' in s else s.split()
+        src_toks = lex(s)
         if printed.split() != src_toks:
             findings.append({'key': 'print-tokens', 'source': s[-1500:], 'printed': printed[-1500:],
                              'what': 'the printed database is not the token sequence that was parsed'})
@@ -199,7 +208,7 @@ def run(rep):
     })
     rep.assumptions += ['the lark lexer (whitespace, comments, keyword terminals) and the printer\'s whitespace are outside the Lean model: tokens are compared',
                         'slice_verifies (the proof still verifies against the slice) is decided by the independent verifier on every generated slice, not by a theorem',
-                        'typecodes are those the slicer knows (#Pattern, #ElementVariable, ...); one assertion per block']
+                        'one assertion per block (match_axiom registers only one conclusion per block); labels are unique']
     seen = set()
     for f in findings:
         if f['key'] in seen:
